@@ -98,6 +98,36 @@ def main():
              lambda e: e["insts"][0].update({"indent": "99"}), r"config\.new\.others", scratch, results)
         case("config: defaults change", "TraceConfig", "TraceConfig.cfg", tc, lambda e: e.get("op") == "NewWriter",
              lambda e: e["fresh"].update({"format": "cdx15"}), r"config\.defaults", scratch, results)
+        case("config: a per-call format option does not reach the driver", "TraceConfig", "TraceConfig.cfg", tc,
+             lambda e: e.get("op") == "WriteCall" and e.get("callfopt"), lambda e: e.update({"gotfopt": "", "gotrenderfopt": ""}),
+             r"config\.call\.fopt", scratch, results)
+        # ---- dispatch pipeline (behaviours exported by TLC, replayed on the real reader / writer)
+        from graph import export_scripts
+        ps, tp = scratch.path("p.scripts"), scratch.path("p.trace")
+        export_scripts(scratch, 48, 20, ps, cfg="Pipeline_sim.cfg", module="Pipeline")
+        run([vh, "pipe-run", "--scripts", ps, "--out", tp])
+        base, _ = validate_trace(scratch, "TracePipeline", "TracePipeline.cfg", tp)
+        results.append(("pipeline: recorded trace", "accepted" if not [v for v in base if "options-nil-panics" not in v[2]] else "REJECTED %s" % base[:3]))
+        case("pipeline: a write answers with another driver", "TracePipeline", "TracePipeline.cfg", tp,
+             lambda e: e.get("op") == "Write" and e.get("res", {}).get("kind") == "ok" and e["res"]["driver"].startswith("fake"),
+             lambda e: e["res"].update({"driver": "builtin-cdx15"}), r"pipe\.write\.(result|precedence)", scratch, results)
+        case("pipeline: a parse fails at another stage", "TracePipeline", "TracePipeline.cfg", tp,
+             lambda e: e.get("op") == "Parse" and e.get("res", {}).get("stage") == "lookup",
+             lambda e: e["res"].update({"stage": "detect"}), r"pipe\.parse\.result", scratch, results)
+        # a registration whose driver later answers a parse of the same script: dropping it must be noticed
+        evs = load(tp)
+        used = set()
+        for i, e in enumerate(evs):
+            if e.get("op") == "RegisterR" and e.get("d") in ("fake1", "fake2"):
+                for later in evs[i + 1:]:
+                    if later.get("sid") != e.get("sid") or (later.get("op") in ("RegisterR", "UnregisterR") and later.get("f") == e["f"]):
+                        break
+                    if later.get("op") == "Parse" and later.get("res", {}).get("driver") == e["d"]:
+                        used.add(i)
+                        break
+        case("pipeline: a registration is forgotten", "TracePipeline", "TracePipeline.cfg", tp,
+             lambda e: evs.index(e) in used if e.get("op") == "RegisterR" else False,
+             lambda e: e.update({"op": "NewWriter", "f": ""}), r"pipe\.parse\..*", scratch, results)
         # ---- store
         ts = scratch.path("s.trace")
         run([vh, "store-run", "--n", "6", "--out", ts])
